@@ -23,32 +23,6 @@ theorem argsortStable_perm' (col : List Lbl) : (argsortStable col).Perm (List.ra
   rw [List.zipIdx_map_snd, ← List.range_eq_range'] at h
   exact h
 
-/-! ### `uniq` -/
-
-theorem mem_uniq {β : Type} [BEq β] [LawfulBEq β] {l : List β} {a : β} : a ∈ uniq l ↔ a ∈ l := by
-  induction l with
-  | nil => simp [uniq]
-  | cons x xs ih =>
-    simp only [uniq, List.mem_cons, List.mem_filter, ih]
-    constructor
-    · rintro (h | ⟨h, _⟩)
-      · exact Or.inl h
-      · exact Or.inr h
-    · rintro (h | h)
-      · exact Or.inl h
-      · by_cases hax : a = x
-        · exact Or.inl hax
-        · exact Or.inr ⟨h, by simpa using hax⟩
-
-theorem nodup_uniq {β : Type} [BEq β] [LawfulBEq β] (l : List β) : (uniq l).Nodup := by
-  induction l with
-  | nil => simp [uniq]
-  | cons x xs ih =>
-    simp only [uniq, List.nodup_cons, List.mem_filter]
-    refine ⟨?_, ih.filter _⟩
-    rintro ⟨_, h⟩
-    simp at h
-
 /-! ### `idxWhere` -/
 
 theorem mem_idxWhereFrom {β : Type} (q : β → Bool) (k : Nat) (col : List β) (i : Nat) :
